@@ -63,6 +63,8 @@ class World:
             m = self.find_method(c, attr)
             if m is None:
                 continue
+            if any(getattr(d, "id", getattr(d, "attr", None)) == "abstractmethod" for d in m[1].decorator_list):
+                continue        # c is abstract with respect to attr: no instances
             groups.setdefault(m[0], []).append(c)
         return list(groups.items())
 
@@ -179,12 +181,8 @@ class World:
         return lem.instance(ex.cx, *args)
 
     def wrap_elem(self, ex, seq, term, st):
-        if seq.elem is None or seq.elem is api.Int or isinstance(seq.elem, api._Int):
-            return term
-        h = self.elem_wrappers.get(seq.elem if isinstance(seq.elem, str) else getattr(seq.elem, "cls", None))
-        if h is None:
-            raise Unsupported(f"no element wrapper for sequence of {seq.elem!r}")
-        return h(ex, seq, term, st)
+        from . import heap
+        return heap.seq_elem(seq, term)
 
     def cast(self, ex, ctype, v, st, node, spec):
         t = ctype[0] if isinstance(ctype, tuple) else ctype
@@ -242,6 +240,19 @@ class World:
         raise Unsupported(f"list.{attr} at line {getattr(node, 'lineno', '?')}")
 
     def container_method(self, ex, st, base, attr, args, kwargs, node, spec):
+        from . import heap
+        if isinstance(base, SeqV):
+            if attr == "append":
+                v = args[0]
+                if isinstance(v, Opt):
+                    v = ex.need_not_none(v, st, node, "append")
+                return None, heap.seq_append(base, v, st)
+            if attr == "extend":
+                v = args[0]
+                if isinstance(v, ListV):
+                    v = heap.seq_from_list(v, base.elem, st)
+                if isinstance(v, SeqV):
+                    return None, heap.seq_concat(base, v)
         if isinstance(base, MapV):
             if attr == "get":
                 return base.arr[zint(args[0])], None
